@@ -11,7 +11,7 @@ pub fn meta() -> Meta {
     Meta {
         id: "C18",
         level: "exploration",
-        rule: "planted-indel families through `ska build` + `ska lo` (CLI, one thread, hash seeds owned by the shim): base sequences whose (k-1)-mers are unique on both strands; k in {11,15,21,31}; 1..3 indels exactly 4k apart; lengths 1..10 complete for a single indel and {1,2,k/2,10} for several; the segment is present in the carriers and absent in the others, so every carrier set (every non-trivial subset for n=3,4,5; single/half/all-but-one for n=6,8) covers both polarities (insertion vs deletion relative to the majority); orientations all-forward / alternating. Oracle for EVERY record of every run: before+REF+after (or its reverse complement) is a substring of exactly the samples genotyped 0 and before+ALT+after of exactly those genotyped 1 ('-' = empty allele; 0/1 counts for both), nobody is genotyped for an allele they lack. For the planted families additionally: every record corresponds to one planted indel with its carriers, no indel is reported twice, and the recall over the whole enumerated family is >= 90% (count and misses reported). Cases whose derived samples break (k-1)-mer uniqueness are judged for soundness only.".into(),
+        rule: "planted-indel families through `ska build` + `ska lo` (CLI, one thread, hash seeds owned by the shim): base sequences whose (k-1)-mers are unique on both strands; k in {11,15,21,31}; 1..3 indels exactly 4k apart; lengths 1..10 complete for a single indel and {1,2,k/2,10} for several; the segment is present in the carriers and absent in the others, so every carrier set (every non-trivial subset for n=3,4,5; single/half/all-but-one for n=6,8) covers both polarities (insertion vs deletion relative to the majority); orientations all-forward / alternating. Oracle for EVERY record of every run: before+REF+after (or its reverse complement) is a substring of exactly the samples genotyped 0 and before+ALT+after of exactly those genotyped 1 ('-' = empty allele; 0/1 counts for both), nobody is genotyped for an allele they lack. For the planted families additionally: every record corresponds to one planted indel with its carriers, no indel is reported twice, and the recall is >= 90% over the whole enumerated family and over every sub-family (k x {single indel, several indels, indel that copies its adjacent bases = homopolymer extension / tandem copy}); counts and misses are reported. Cases whose derived samples break (k-1)-mer uniqueness are judged for soundness only.".into(),
         assumptions: vec!["release-profile arithmetic: a debug build panics on a usize underflow in read_graph.rs for short deletion paths (DESIGN §2)".into(), "hash seeds: declared finite set".into()],
         exhaustive_when_uncapped: true,
     }
@@ -48,44 +48,21 @@ impl IndelCase {
     pub fn samples(&self) -> Vec<Vec<Vec<u8>>> {
         (0..self.n()).map(|i| vec![if self.flip[i] { rc_str(&self.sample_seq(i)) } else { self.sample_seq(i) }]).collect()
     }
-    /// sample sequence with the base coordinate of every letter
-    fn sample_coords(&self, i: usize) -> Vec<(u8, usize)> {
-        let mut s = Vec::new();
-        let mut pos = 0;
-        let mut push = |a: usize, b: usize, s: &mut Vec<(u8, usize)>| {
-            for q in a..b {
-                s.push((self.base[q], q));
-            }
-        };
-        for (si, (st, len)) in self.segs.iter().enumerate() {
-            push(pos, *st, &mut s);
-            if self.present[si][i] {
-                push(*st, st + len, &mut s);
-            }
-            pos = st + len;
-        }
-        push(pos, self.base.len(), &mut s);
-        s
-    }
-    /// Premise re-checked on the derived samples in the JOINT graph: every canonical (k-1)-mer belongs to one
-    /// locus (one tuple of base coordinates) only, none is its own reverse complement.
+    /// Premise re-checked on the derived samples: within every sample the (k-1)-mers are unique on both strands
+    /// (each genome is repeat-free). Equal (k-1)-mers in different samples are natural for indels (a homopolymer
+    /// extension shifts the same letters by one coordinate), so no cross-sample condition is imposed here.
     pub fn premise(&self) -> bool {
-        let mut locus: std::collections::BTreeMap<Vec<u8>, Vec<usize>> = std::collections::BTreeMap::new();
         for i in 0..self.n() {
-            let sc = self.sample_coords(i);
-            for w in sc.windows(self.k - 1) {
-                let letters: Vec<u8> = w.iter().map(|x| x.0).collect();
-                let coords: Vec<usize> = w.iter().map(|x| x.1).collect();
-                let r = rc_str(&letters);
-                if r == letters {
+            let s = self.sample_seq(i);
+            let mut seen = std::collections::BTreeSet::new();
+            for w in s.windows(self.k - 1) {
+                let r = rc_str(w);
+                if r == w {
                     return false;
                 }
-                let c = if r < letters { r } else { letters };
-                match locus.get(&c) {
-                    Some(q) if *q != coords => return false,
-                    _ => {
-                        locus.insert(c, coords);
-                    }
+                let c = if r < w.to_vec() { r } else { w.to_vec() };
+                if !seen.insert(c) {
+                    return false;
                 }
             }
         }
@@ -204,6 +181,18 @@ pub fn run(ctx: &Ctx, rep: &mut Report) {
         for l in [1usize, 2, k / 2, 10] {
             plans.push(vec![(starts[0], l), (starts[1], 11 - l.min(10))]);
         }
+        // indels whose sequence copies the adjacent bases (homopolymer extension, tandem copy): the bubble can be
+        // shifted; they are genuine isolated indels shorter than k in repeat-free sequence
+        let find_shiftable = |len: usize| -> Option<usize> {
+            (2 * k..base.len() - 2 * k).find(|p| (0..len).all(|j| base[p + j] == base[p + j - len]))
+        };
+        let mut shiftable: Vec<Vec<(usize, usize)>> = Vec::new();
+        for len in [1usize, 2] {
+            if let Some(p) = find_shiftable(len) {
+                shiftable.push(vec![(p, len)]);
+            }
+        }
+        plans.extend(shiftable.iter().cloned());
         plans.push(vec![(starts[0], 1), (starts[1], k / 2), (starts[2], 10)]);
         plans.push(vec![(starts[0], 10), (starts[1], 2), (starts[2], 2)]);
         for segs in plans {
@@ -230,6 +219,13 @@ pub fn run(ctx: &Ctx, rep: &mut Report) {
                                         rep.nontrivial += 1;
                                         planted_total += planted as u64;
                                         found_total += found as u64;
+                                        let class = if shiftable.contains(&c.segs) { "shiftable (copies adjacent bases)" } else if c.segs.len() > 1 { "several indels" } else { "single indel" };
+                                        let kp = format!("planted[k={k} {class}]");
+                                        let kf = format!("reported[k={k} {class}]");
+                                        let a = rep.extra.get(&kp).and_then(|v| v.as_u64()).unwrap_or(0);
+                                        let b = rep.extra.get(&kf).and_then(|v| v.as_u64()).unwrap_or(0);
+                                        rep.extra.insert(kp, json!(a + planted as u64));
+                                        rep.extra.insert(kf, json!(b + found as u64));
                                         rep.outcome(&(k, &c.segs, &c.present));
                                         if c.present.iter().any(|p| p.iter().filter(|x| **x).count() * 2 == n) {
                                             rep.corner("carriers_exactly_half_of_the_samples");
@@ -272,6 +268,16 @@ pub fn finish(rep: &mut Report) {
         rep.extra.insert("recall".into(), json!(recall));
         if recall < 0.9 {
             rep.violate("recall".into(), format!("only {found} of {planted} planted indels are reported ({:.1}% < 90%)", recall * 100.0), json!({"planted": planted, "reported": found}));
+        }
+        // the 90% must hold for every enumerated sub-family (k x class of indel), not only on average
+        let keys: Vec<String> = rep.extra.keys().filter(|k| k.starts_with("planted[")).cloned().collect();
+        for kp in keys {
+            let kf = kp.replacen("planted[", "reported[", 1);
+            let p = rep.extra.get(&kp).and_then(|v| v.as_u64()).unwrap_or(0);
+            let f = rep.extra.get(&kf).and_then(|v| v.as_u64()).unwrap_or(0);
+            if p >= 10 && (f as f64) < 0.9 * p as f64 {
+                rep.violate(format!("recall {kp}"), format!("{kp}: only {f} of {p} planted indels are reported (< 90%)"), json!({"subfamily": kp, "planted": p, "reported": f}));
+            }
         }
     }
 }
